@@ -212,19 +212,28 @@ Definition opR (acc : list (string * stepval)) (op : string * list index) (e : c
   dims_ok (snd op) (run_np e) /\
   forall r, aval S (run_np e) (map r (snd op)) = operand_val S B acc op r.
 
+Lemma iname_len1 x : N.eqb (inum x) 0 = true -> String.length (iname x) = 1%nat.
+Proof. Local Transparent iname. unfold iname, chr. intros ->. reflexivity. Local Opaque iname. Qed.
+Lemma single_not_multi l : single_letter l = true -> multi_letter l = false.
+Proof. unfold single_letter, multi_letter. induction l as [|x r IH]; simpl; [reflexivity|].
+  intros H. apply andb_true_iff in H. destruct H as [H1 H2].
+  rewrite (iname_len1 x H1). simpl. apply IH; exact H2. Qed.
+
 Lemma format_operand_np cache acc con op : cache_ok cache acc -> op_ok acc op ->
+  single_letter (snd op) = true ->
   exists e, format_operand cfg Einsum cache con op = Ok e /\ opR acc op e.
-Proof. intros Hc Ho. destruct op as [nm idx]. unfold op_ok, opR, operand_val, format_operand in *. simpl in *.
+Proof. intros Hc Ho Hs. destruct op as [nm idx]. unfold op_ok, opR, operand_val, format_operand in *. simpl in *.
   destruct (is_contraction nm).
   - destruct Ho as [v Hv]. destruct (lookup_cache_ok _ _ _ _ Hc Hv) as [e [He [Hd Hval]]].
     rewrite He. exists e. split; [reflexivity|]. rewrite Hv. simpl in *. auto.
-  - eexists; split; [reflexivity|]. simpl. exact Ho. Qed.
+  - rewrite (single_not_multi idx Hs). eexists; split; [reflexivity|]. simpl. exact Ho. Qed.
 
 Lemma rmap_operands cache acc con ops : cache_ok cache acc -> Forall (op_ok acc) ops ->
+  (forall op, In op ops -> single_letter (snd op) = true) ->
   exists es, rmap (format_operand cfg Einsum cache con) ops = Ok es /\ Forall2 (opR acc) ops es.
-Proof. intros Hc H. induction H as [|op ops Ho H IH]; simpl; [exists []; split; [reflexivity|constructor]|].
-  destruct (format_operand_np cache acc con op Hc Ho) as [e [He HR]]. rewrite He. simpl.
-  destruct IH as [es [Hes HF]]. rewrite Hes. simpl. exists (e :: es). split; [reflexivity|constructor; assumption]. Qed.
+Proof. intros Hc H. induction H as [|op ops Ho H IH]; intros Hsl; simpl; [exists []; split; [reflexivity|constructor]|].
+  destruct (format_operand_np cache acc con op Hc Ho (Hsl op (or_introl eq_refl))) as [e [He HR]]. rewrite He. simpl.
+  destruct IH as [es [Hes HF]]; [intros op' Hop'; apply Hsl; right; exact Hop'|]. rewrite Hes. simpl. exists (e :: es). split; [reflexivity|constructor; assumption]. Qed.
 
 Definition nonempty (p : cexpr * list index) : bool := negb (is_nil (snd p)).
 
@@ -362,7 +371,10 @@ Theorem codegen_step_semantics_np D cache acc st :
             dims_ok (cs_tgt st) (run_np e) /\
             forall r, aval S (run_np e) (map r (cs_tgt st)) = step_val S T B acc st r.
 Proof. intros HD HS Hc [Hwf [Hops [Hix Htg]]].
-  destruct (rmap_operands cache acc (cs_con st) (cs_ops st) Hc Hops) as [es [Hes HF]].
+  assert (Hsl : forall op, In op (cs_ops st) -> single_letter (snd op) = true).
+  { intros op Hop. apply (single_letter_incl D); [exact HS|]. intros z Hz. apply Hix. unfold step_idx.
+    apply in_concat. exists (snd op). split; [apply in_map; exact Hop|exact Hz]. }
+  destruct (rmap_operands cache acc (cs_con st) (cs_ops st) Hc Hops Hsl) as [es [Hes HF]].
   unfold format_contraction. rewrite Hes. simpl.
   destruct (split_operands acc (cs_ops st) es HF) as [P1 [P2 [P3 P4]]].
   change (fun p : cexpr * list index => negb (is_nil (snd p))) with nonempty.
@@ -487,11 +499,10 @@ Proof. intros HD HS Hidx Hsch Hok H. unfold gen_term in H.
 Definition numarg_val (a : numarg) : K S :=
   match a with NRat p q => ofQ S (Z.of_N p # q) | NSqrt n => sqrtv T n | NOther => 0 end.
 Fixpoint kpow (x : K S) (n : nat) : K S := match n with O => 1 | Datatypes.S n' => x * kpow x n' end.
-Fixpoint syms_val (syms : list (option string * nat)) : K S :=
+Fixpoint syms_val (syms : list (string * nat)) : K S :=
   match syms with
   | [] => 1
-  | (Some s, n) :: r => kpow (symv T s) n * syms_val r
-  | (None, _) :: r => syms_val r
+  | (s, n) :: r => kpow (symv T s) n * syms_val r
   end.
 
 Lemma format_python_num_val a f : format_python_num hf a = Ok f -> pfac_val S T f = numarg_val a.
@@ -515,21 +526,18 @@ Proof. intros Hf. revert fs. induction l as [|a r IH]; simpl; intros fs H; [inve
   destruct (rmap f r) as [xs| |]; try discriminate. simpl in H. inversion H; subst. simpl.
   rewrite (Hf a x E), (IH xs eq_refl). reflexivity. Qed.
 
-Lemma sym_names_val syms fs : sym_names syms = Ok fs -> kprod (map (pfac_val S T) fs) = syms_val syms.
-Proof. revert fs. induction syms as [|[[s|] n] r IH]; simpl; intros fs H.
-  - inversion H; reflexivity.
-  - destruct (sym_names r) as [ys| |]; try discriminate. simpl in H. inversion H; subst.
-    rewrite map_app, kprod_app, (IH ys eq_refl). f_equal.
-    clear. induction n as [|n IHn]; simpl; [reflexivity|rewrite IHn; reflexivity].
-  - destruct n; [apply IH; exact H|discriminate]. Qed.
+Lemma sym_names_val syms : kprod (map (pfac_val S T) (sym_names syms)) = syms_val syms.
+Proof. induction syms as [|[s n] r IH]; simpl; [reflexivity|].
+  rewrite map_app, kprod_app, IH. f_equal.
+  clear. induction n as [|n IHn]; simpl; [reflexivity|rewrite IHn; reflexivity]. Qed.
 
 (** the printed prefactor (both number formats, sqrt, symbols) denotes the
     number prefactor of the term times its symbols *)
 Theorem prefactor_value be nums syms pf : format_prefactor hf be nums syms = Ok pf ->
   kprod (map (pfac_val S T) pf) = kprod (map numarg_val nums) * syms_val syms.
-Proof. unfold format_prefactor. destruct (sym_names syms) as [sy| |] eqn:Es; try discriminate. simpl.
+Proof. unfold format_prefactor.
   destruct (rmap _ nums) as [nu| |] eqn:En; try discriminate. simpl. intros H; inversion H; subst.
-  rewrite map_app, kprod_app, (sym_names_val _ _ Es). f_equal.
+  rewrite map_app, kprod_app, sym_names_val. f_equal.
   destruct be; eapply rmap_vals; try exact En; [apply format_python_num_val|apply format_cpp_num_val]. Qed.
 
 (* ------------------------------------------------------------------ *)
@@ -599,18 +607,26 @@ Proof. induction l as [|a r IH]; simpl; [discriminate|].
     destruct (IH eq_refl) as [b [Hb Hf]]. exists b; auto.
   - intros _. exists a; auto. Qed.
 
-(* an operand is refused exactly for a partial trace on a libtensor tensor *)
+(* an operand is refused exactly for a partial trace on a libtensor tensor or
+   for an index name that is not a single letter on a numpy tensor *)
 Theorem refusal_exact_operand be cache con op :
   format_operand cfg be cache con op = Refuse <->
-  be = Libtensor /\ is_contraction (fst op) = false /\ partial_trace con (snd op) = true.
+  is_contraction (fst op) = false /\
+  (be = Einsum /\ multi_letter (snd op) = true \/ be = Libtensor /\ partial_trace con (snd op) = true).
 Proof. destruct op as [nm idx]; unfold format_operand; simpl. destruct (is_contraction nm).
-  - destruct (lookup nm cache); split; try discriminate; intros [_ [H _]]; discriminate.
-  - destruct be; [split; [discriminate|intros [H _]; discriminate]|].
-    destruct (partial_trace con idx).
-    + split; auto.
-    + unfold translate_libadc. destruct (prefix (n_eri cfg) nm); simpl; [split; [discriminate|intros [_ [_ H]]; discriminate]|].
-      destruct (prefix "t2eri" nm); simpl; [|split; [discriminate|intros [_ [_ H]]; discriminate]].
-      destruct (split_on "_" nm) as [|a [|b [|c l]]]; simpl; split; try discriminate; intros [_ [_ H]]; discriminate. Qed.
+  - destruct (lookup nm cache); split; try discriminate; intros [H _]; discriminate.
+  - destruct be.
+    + destruct (multi_letter idx); split; auto; try discriminate.
+      intros [_ [[_ H]|[H _]]]; discriminate.
+    + destruct (partial_trace con idx).
+      * split; auto.
+      * assert (Hn : forall A (x : res A), (x = Refuse -> False) -> x = Refuse <->
+            false = false /\ (Libtensor = Einsum /\ multi_letter idx = true \/ Libtensor = Libtensor /\ false = true)).
+        { intros A x Hx. split; [intros H; destruct (Hx H)|intros [_ [[H _]|[_ H]]]; discriminate]. }
+        apply Hn. unfold translate_libadc.
+        destruct (String.eqb (name_base nm) (n_eri cfg)); simpl; [discriminate|].
+        destruct (prefix "t2eri" nm); simpl; [|discriminate].
+        destruct (split_on "_" nm) as [|a [|b [|c l]]]; simpl; discriminate. Qed.
 
 (* a number is refused exactly if it is neither rational nor a square root,
    or a square root when sympy's  S.Half == 0.5  is False *)
@@ -626,13 +642,34 @@ Proof. destruct be, a as [p q|n|]; simpl.
        intros H; repeat match type of H with context [match ?x with _ => _ end] => destruct x end; discriminate.
 Qed.
 
-(* the numpy backend never refuses a contraction *)
-Theorem refusal_never_einsum cache st : format_contraction cfg Einsum cache st <> Refuse.
-Proof. unfold format_contraction. destruct (rmap _ (cs_ops st)) as [es| |] eqn:E; simpl; try discriminate.
-  apply rmap_refuse in E. destruct E as [op [_ H]]. apply refusal_exact_operand in H. destruct H; discriminate. Qed.
+Lemma rmap_refuse_conv {A A2} (f : A -> res A2) l :
+  (forall a, In a l -> f a <> Crash) -> (exists a, In a l /\ f a = Refuse) -> rmap f l = Refuse.
+Proof. induction l as [|a r IH]; intros Hn [b [Hb Hf]]; [destruct Hb|]. simpl.
+  destruct (f a) as [x| |] eqn:E; simpl.
+  - destruct Hb as [->|Hb]; [congruence|].
+    rewrite IH; [reflexivity|intros c Hc; apply Hn; right; exact Hc|exists b; auto].
+  - reflexivity.
+  - exfalso. apply (Hn a (or_introl eq_refl)). exact E. Qed.
 
-(* libtensor: refused exactly for a partial trace or for >= 2 tensors without
-   contracted and without target indices (provided the operands do not crash) *)
+(* the numpy backend refuses a contraction exactly if one of its tensors
+   carries an index whose name is not a single letter (all inner results being
+   available) *)
+Theorem refusal_exact_einsum cache st :
+  (forall op, In op (cs_ops st) -> is_contraction (fst op) = true -> lookup (fst op) cache <> None) ->
+  (format_contraction cfg Einsum cache st = Refuse <->
+   exists op, In op (cs_ops st) /\ is_contraction (fst op) = false /\ multi_letter (snd op) = true).
+Proof. intros Hl. unfold format_contraction. split.
+  - destruct (rmap _ (cs_ops st)) as [es| |] eqn:E; simpl; try discriminate. intros _.
+    apply rmap_refuse in E. destruct E as [op [Hin H]]. apply refusal_exact_operand in H.
+    exists op. destruct H as [H1 [[_ H2]|[H2 _]]]; [auto|discriminate].
+  - intros [op [Hin [H1 H2]]]. rewrite (rmap_refuse_conv (format_operand cfg Einsum cache (cs_con st))); [reflexivity| |].
+    + intros [nm idx] Ha. unfold format_operand. destruct (is_contraction nm) eqn:Ec.
+      * specialize (Hl (nm, idx) Ha Ec). simpl in Hl. destruct (lookup nm cache); [discriminate|congruence].
+      * destruct (multi_letter idx); discriminate.
+    + exists op. split; [exact Hin|]. apply refusal_exact_operand. auto. Qed.
+
+(* libtensor: refused only for a partial trace or for >= 2 tensors without
+   contracted and without target indices *)
 Theorem refusal_exact_libtensor cache st :
   format_contraction cfg Libtensor cache st = Refuse ->
   (exists op, In op (cs_ops st) /\ is_contraction (fst op) = false /\ partial_trace (cs_con st) (snd op) = true)
@@ -645,7 +682,7 @@ Proof. unfold format_contraction. destruct (rmap _ (cs_ops st)) as [es| |] eqn:E
       destruct (String.eqb (cat (map iname (cs_tgt st))) "") eqn:E2; try discriminate.
       apply String.eqb_eq in E2. auto.
   - intros _. left. apply rmap_refuse in E. destruct E as [op [Hin H]].
-    apply refusal_exact_operand in H. exists op; tauto. Qed.
+    apply refusal_exact_operand in H. exists op. destruct H as [H1 [[H2 _]|[_ H2]]]; [discriminate|auto]. Qed.
 
 (* ------------------------------------------------------------------ *)
 (** * libtensor backend *)
